@@ -96,10 +96,10 @@ PROPS = {
                     'mathematical segment boundaries of the canonical serialisation; unbounded in entry count and store size.',
     ),
     'C17': dict(
-        level='proof', verus=['c17_compressor', 'c17_add_data', 'c19_caps', 'c06_files'],
+        level='proof', verus=['c17_compressor', 'c17_add_data', 'c19_caps', 'c06_files', 'c06_blocks'],
         trusted_base=[A_TOOLS, A_EXTRACT, 'A-ENC: the encoder constructors (flate2, liblzma, bzip2, zstd) do not panic inside their DOCUMENTED level ranges, which are stated as preconditions of stand-in constructors in the unit',
                       'A-PATH: std::path / OsStr / String plumbing called by add_data (PathBuf::from, parent, file_name, strip_prefix, to_string_lossy, starts_with, clone, format!) does not panic; its RESULTS are arbitrary in the unit (no specification), so the proof holds for whatever std::path reports; sha2 / hex / BTreeMap / BTreeSet calls likewise'],
-        assumptions=['claimed for TWO parts: "a compression level the encoder cannot honour is reported as an error or mapped to a supported level, never a crash", and "destinations that cannot be split into a directory and a file name are reported as errors": PackageBuilder::add_data (every file setter ends there) has no reachable panic for ANY destination string. Capability text: validate_caps_text / validate_suffix / FileCaps::new / from_str are verified to return Ok or Err for every text without panicking (unit c19_caps, the debug_assert! included; validate_capset itself - split, to_uppercase, table lookup - is not under contract). The `expect` on narrowing the file sizes to 32 bits in prepare_data cannot fail (block b12 of unit c06_files). The metadata setters are not claimed',
+        assumptions=['claimed for TWO parts: "a compression level the encoder cannot honour is reported as an error or mapped to a supported level, never a crash", and "destinations that cannot be split into a directory and a file name are reported as errors": PackageBuilder::add_data (every file setter ends there) has no reachable panic for ANY destination string. Capability text: validate_caps_text / validate_suffix / FileCaps::new / from_str are verified to return Ok or Err for every text without panicking (unit c19_caps, the debug_assert! included; validate_capset itself - split, to_uppercase, table lookup - is not under contract). The two `expect`s of prepare_data on narrowing sizes to 32 bits cannot fail: the per-file sizes (block b12 of unit c06_files) and the installed size (block b6 of unit c06_blocks), both from "uses_large_files is false, so the sizes add up to at most u32::MAX". PackageBuilder::source_date and add_changelog_entry unwrap the conversion of a SystemTime / chrono value into a Timestamp (out-of-range instants panic there): these setters take neither strings nor numbers and return Self, so this is noted, not claimed and not changed. The metadata setters are not claimed',
                      'incompleteness, stated: because std::path results are arbitrary in the unit, an `unwrap` that std::path semantics would justify is NOT provable here and would be reported (the two unwraps repaired by 8440da6 were not justified: 69 of the 1365 destinations over {/ . .. a} up to 5 symbols panicked)',
                      'R1: all compression cfg features treated as enabled, zstdmt off'],
         explanation='Verbatim body of TryFrom<CompressionWithLevel> for Compressor: every encoder constructor call is reached only with a level inside the documented range (precondition obligations), out-of-range levels return Err, and the variant constructed matches the variant requested. Verbatim body of PackageBuilder::add_data: every unwrap / expect / index on a std::path result would be a precondition obligation - there is none left, each case returns Error::InvalidDestinationPath.',
